@@ -8,7 +8,8 @@ against an RFC 4251 reference encoder written here.
 """
 from pv.core import hx
 
-KINDS = "btuqaslm"
+KINDS = "btuqaslmx"  # x = text: written with add_string(str), read with get_text(); the model sees its UTF-8 bytes (kind s)
+TEXT_ALPHABET = "abcz-@.09é\ufeff\u200b\U0001F600\u0301\x00\x7fÿ\u2028 "
 
 
 def rfc4251_mpint(z):
@@ -53,8 +54,15 @@ def gen_field(rng):
         names = []
         for _ in range(n):
             ln = rng.randrange(0, 8)
-            names.append("".join(rng.choice("abcz-@.09é") for _ in range(ln)))
+            names.append("".join(rng.choice(TEXT_ALPHABET) for _ in range(ln)))
+        if rng.random() < 0.15:
+            names[0] = "\ufeff" + names[0]  # a leading U+FEFF is an ordinary character of the value
         return ("l", names)
+    if k == "x":
+        t = "".join(rng.choice(TEXT_ALPHABET) for _ in range(rng.randrange(0, 10)))
+        if rng.random() < 0.2:
+            t = "\ufeff" + t
+        return ("x", t)
     return ("m", boundary_int(rng))
 
 
@@ -68,6 +76,8 @@ def tok(f):
         return "%s:%d" % (k, v)
     if k == "s":
         return "s:" + hx(v)
+    if k == "x":
+        return "s:" + hx(v.encode("utf-8"))
     return "l:" + ",".join(hx(n.encode("utf-8")) for n in v)
 
 
@@ -79,7 +89,7 @@ def real_encode(Message, fields, peek=None):
     seen = []
     for k, v in fields:
         {"b": m.add_byte, "t": m.add_boolean, "u": m.add_int, "q": m.add_int64, "a": m.add_adaptive_int,
-         "s": m.add_string, "l": m.add_list, "m": m.add_mpint}[k](v)
+         "s": m.add_string, "l": m.add_list, "m": m.add_mpint, "x": m.add_string}[k](v)
         if peek is not None and peek.random() < 0.5:
             seen.append(bytes(m) if peek.random() < 0.5 else m.asbytes())
     out = m.asbytes()
@@ -95,7 +105,7 @@ def real_decode(Message, kinds, data, check_split=None):
     out = []
     for k in kinds:
         v = {"b": m.get_byte, "t": m.get_boolean, "u": m.get_int, "q": m.get_int64, "a": m.get_adaptive_int,
-             "s": m.get_string, "l": m.get_list, "m": m.get_mpint}[k]()
+             "s": m.get_string, "l": m.get_list, "m": m.get_mpint, "x": m.get_text}[k]()
         out.append((k, v))
         if check_split is not None and m.get_so_far() + m.get_remainder() != data:
             check_split.append((k, len(out)))
@@ -131,7 +141,7 @@ def run(ctx):
     dec_reqs, dec_cases = [], []
     for idx, fields in enumerate(cases):
         kinds = "".join(k for k, _ in fields)
-        nontriv = any(k in "aslm" for k in kinds)
+        nontriv = any(k in "aslmx" for k in kinds)
         try:
             data = real_encode(Message, fields, peek=rng if idx % 2 else None)
         except Exception as e:  # writers must accept every well-formed value
@@ -176,7 +186,7 @@ def run(ctx):
                              {"mpint": v}, "wire %s, RFC 4251 %s" % (enc.hex(), ref.hex()))
                 if util.inflate_long(util.deflate_long(v)) != v:
                     ctx.fail("inflate-deflate", {"z": v}, "inflate(deflate(z)) != z")
-        dec_reqs.append("dec %s %s" % (kinds, hx(data + tail)))
+        dec_reqs.append("dec %s %s" % (kinds.replace("x", "s"), hx(data + tail)))
         dec_cases.append((kinds, data + tail))
 
     # ---- fields around and beyond the 1 MiB zero-padding limit of get_bytes (every size is a well-formed field)
@@ -232,7 +242,7 @@ def run(ctx):
             continue
         if probe["max"] > 2048:
             ctx.dist("malformed:huge-zero-pad")
-        dec_reqs.append("dec %s %s" % (kinds, hx(data)))
+        dec_reqs.append("dec %s %s" % (kinds.replace("x", "s"), hx(data)))
         dec_cases.append((kinds, data))
         ctx.dist("malformed")
 
